@@ -190,10 +190,19 @@ func jwkParseKind(c *proto.Case) interface{} {
 		return M{"class": "out-of-domain"}
 	}
 	if k.Kty == "OKP" {
+		// both readers: GetED25519PublicKey and the exported JWK.UnmarshalJSON
+		out := M{"parse": "ok", "unmarshal": "ok"}
 		if _, err := jwsutil.GetED25519PublicKey(k); err != nil {
-			return M{"parse": "err"}
+			out["parse"] = "err"
 		}
-		return M{"parse": "ok"}
+		b, _ := json.Marshal(k)
+		var in jwsutil.JWK
+		if err := in.UnmarshalJSON(b); err != nil {
+			out["unmarshal"] = "err"
+		} else if _, ok := in.Key.(ed25519.PublicKey); !ok {
+			out["unmarshal"] = "err"
+		}
+		return out
 	}
 	b, _ := json.Marshal(k)
 	var in jwsutil.JWK
